@@ -837,3 +837,331 @@ Section BytesFacts.
     intros Hf. apply (bytes_run fuel sc rinit); [split; [reflexivity|intros _; reflexivity]|exact Hf].
   Qed.
 End BytesFacts.
+
+(* ===================================================================================== *)
+(* Write half                                                                            *)
+(* ===================================================================================== *)
+
+(* the bytes the transport took during a call, in order *)
+Fixpoint wire (evs : list wev) : list Z :=
+  match evs with
+  | [] => []
+  | EvWrite bs :: t => bs ++ wire t
+  | _ :: t => wire t
+  end.
+
+Lemma wire_app e1 e2 : wire (e1 ++ e2) = wire e1 ++ wire e2.
+Proof.
+  induction e1 as [|e t IH]; [reflexivity|]. destruct e; cbn [app wire]; rewrite ?IH, ?app_assoc; reflexivity.
+Qed.
+
+(* a poll_write that took a non-empty prefix *)
+Definition is_write (e : wev) : bool := match e with EvWrite (_ :: _) => true | _ => false end.
+
+(* how a call that stopped inside the write loop ended *)
+Definition stop_event (r : wres) (e : wev) : Prop :=
+  (r = RPend /\ e = EvWPending) \/ (r = RIoErr /\ e = EvWErr) \/ (r = RWriteZero /\ e = EvWZero).
+
+Lemma write_loop_spec w : forall buf o buf' w' evs,
+  write_loop w buf = (o, buf', w', evs) ->
+  wire evs ++ buf' = buf /\
+  match o with
+  | None => buf' = [] /\ forallb is_write evs = true
+  | Some r => buf' <> [] /\
+              exists evs0 e, evs = evs0 ++ [e] /\ forallb is_write evs0 = true /\ stop_event r e
+  end.
+Proof.
+  induction w as [|a w IH]; intros buf o buf' w' evs H.
+  - destruct buf as [|b t]; cbn [write_loop] in H; injection H as <- <- <- <-.
+    + auto.
+    + cbn [wire forallb is_write andb]. rewrite !app_nil_r. auto.
+  - destruct buf as [|b t]; [cbn [write_loop] in H; injection H as <- <- <- <-; auto|].
+    cbn [write_loop] in H. destruct a as [k| | |].
+    + destruct (N.to_nat k) as [|n] eqn:En.
+      * injection H as <- <- <- <-. split; [reflexivity|]. split; [discriminate|].
+        exists [], EvWZero. unfold stop_event. repeat split; auto.
+      * destruct (write_loop w (skipn (S n) (b :: t))) as [[[o1 buf1] w1] evs1] eqn:E.
+        injection H as <- <- <- <-. destruct (IH _ _ _ _ _ E) as [Hw Ho].
+        split; [cbn [wire]; rewrite <- app_assoc, Hw; exact (firstn_skipn (S n) (b :: t))|].
+        destruct o1 as [r|].
+        -- destruct Ho as (Hne & evs0 & e & -> & Hf & Hs). split; [exact Hne|].
+           exists (EvWrite (firstn (S n) (b :: t)) :: evs0), e. cbn [firstn forallb is_write]. auto.
+        -- destruct Ho as [-> Hf]. cbn [firstn forallb is_write]. auto.
+    + injection H as <- <- <- <-. split; [reflexivity|]. split; [discriminate|].
+      exists [], EvWPending. unfold stop_event. repeat split; auto.
+    + injection H as <- <- <- <-. split; [reflexivity|]. split; [discriminate|].
+      exists [], EvWZero. unfold stop_event. repeat split; auto.
+    + injection H as <- <- <- <-. split; [reflexivity|]. split; [discriminate|].
+      exists [], EvWErr. unfold stop_event. repeat split; auto.
+Qed.
+
+Lemma forallb_is_write_no e evs : forallb is_write evs = true -> is_write e = false -> ~ In e evs.
+Proof.
+  intros Hf He Hin. rewrite forallb_forall in Hf. specialize (Hf _ Hin). congruence.
+Qed.
+
+(* what a call returned, seen from the transport's record: every event but the last is a
+   non-empty write; the last event determines the result *)
+Definition ends_with (evs : list wev) (last : list wev) : Prop :=
+  exists evs0, evs = evs0 ++ last /\ forallb is_write evs0 = true.
+
+Lemma io_flush_spec st r st' e :
+  io_flush st = (r, st', e) ->
+  wbuf st' = wbuf st /\ exists a, e = [EvFlush a] /\ r = wres_of a.
+Proof.
+  unfold io_flush. destruct (fs st) as [|a t]; intros H; injection H as <- <- <-; cbn [wbuf]; eauto.
+Qed.
+
+Lemma io_shutdown_spec st r st' e :
+  io_shutdown st = (r, st', e) ->
+  wbuf st' = wbuf st /\ exists a, e = [EvShutdown a] /\ r = wres_of a.
+Proof.
+  unfold io_shutdown. destruct (ss st) as [|a t]; intros H; injection H as <- <- <-; cbn [wbuf]; eauto.
+Qed.
+
+Lemma wres_of_ok a : wres_of a = ROk -> a = FOk.
+Proof. destruct a; intros H; [reflexivity|discriminate H|discriminate H]. Qed.
+Lemma wres_of_not_wz a : wres_of a <> RWriteZero.
+Proof. destruct a; discriminate. Qed.
+
+(* Framed::flush *)
+Lemma flush_spec st r st' evs :
+  flush st = (r, st', evs) ->
+  wire evs ++ wbuf st' = wbuf st /\
+  (r = ROk -> wbuf st' = [] /\ ends_with evs [EvFlush FOk]) /\
+  (r = RWriteZero <-> In EvWZero evs) /\
+  (r = RWriteZero -> wbuf st' <> [] /\ ends_with evs [EvWZero]).
+Proof.
+  unfold flush. destruct (write_loop (ws st) (wbuf st)) as [[[o buf'] w'] e1] eqn:E.
+  destruct (write_loop_spec _ _ _ _ _ _ E) as [Hw Ho]. destruct o as [r1|].
+  - intros H. injection H as <- <- <-. cbn [wbuf]. destruct Ho as (Hne & evs0 & e & -> & Hf & Hs).
+    split; [exact Hw|]. split; [|split; [split|]].
+    + intros ->. destruct Hs as [[H _]|[[H _]|[H _]]]; discriminate H.
+    + intros ->. destruct Hs as [[H _]|[[H _]|[_ ->]]]; try discriminate H. apply in_or_app. right. now left.
+    + intros Hin. apply in_app_or in Hin as [Hin|[He|[]]].
+      * exfalso. exact (forallb_is_write_no EvWZero evs0 Hf eq_refl Hin).
+      * subst e. destruct Hs as [[_ H]|[[_ H]|[-> _]]]; try discriminate H. reflexivity.
+    + intros ->. split; [exact Hne|]. exists evs0.
+      destruct Hs as [[H _]|[[H _]|[_ ->]]]; try discriminate H. auto.
+  - destruct Ho as [-> Hf].
+    destruct (io_flush (mkW [] w' (fs st) (ss st))) as [[r2 st2] e2] eqn:E2.
+    destruct (io_flush_spec _ _ _ _ E2) as (Hb & a & -> & ->). cbn [wbuf] in Hb.
+    intros H. injection H as <- <- <-. rewrite wire_app, Hb. cbn [wire]. rewrite !app_nil_r in *.
+    split; [exact Hw|]. split; [|split; [split|]].
+    + intros Ha. apply wres_of_ok in Ha as ->. split; [reflexivity|]. exists e1. auto.
+    + intros Ha. destruct (wres_of_not_wz _ Ha).
+    + intros Hin. apply in_app_or in Hin as [Hin|[Hin|[]]]; [|discriminate Hin].
+      exfalso. exact (forallb_is_write_no EvWZero e1 Hf eq_refl Hin).
+    + intros Ha. destruct (wres_of_not_wz _ Ha).
+Qed.
+
+(* Framed::close (after the fix) *)
+Lemma close_spec st r st' evs :
+  close st = (r, st', evs) ->
+  wire evs ++ wbuf st' = wbuf st /\
+  (r = ROk -> wbuf st' = [] /\ ends_with evs [EvFlush FOk; EvShutdown FOk]) /\
+  (r = RWriteZero <-> In EvWZero evs) /\
+  (r = RWriteZero -> wbuf st' <> [] /\ ends_with evs [EvWZero]).
+Proof.
+  unfold close. destruct (flush st) as [[r1 st1] e1] eqn:E.
+  destruct (flush_spec _ _ _ _ E) as (Hw & Hok & Hz & Hz2).
+  destruct r1;
+    try (intros H; injection H as <- <- <-; split; [exact Hw|]; split; [intros H; discriminate H|];
+         split; [exact Hz|exact Hz2]).
+  destruct (io_shutdown st1) as [[r2 st2] e2] eqn:E2.
+  destruct (io_shutdown_spec _ _ _ _ E2) as (Hb & a & -> & ->).
+  destruct (Hok eq_refl) as [Hb1 (evs0 & -> & Hf)].
+  intros H. injection H as <- <- <-. rewrite wire_app, Hb. cbn [wire]. rewrite app_nil_r.
+  split; [exact Hw|]. split; [|split; [split|]].
+  - intros Ha. apply wres_of_ok in Ha as ->. split; [exact Hb1|]. exists evs0.
+    rewrite <- app_assoc. auto.
+  - intros Ha. destruct (wres_of_not_wz _ Ha).
+  - intros Hin. apply in_app_or in Hin as [Hin|[Hin|[]]]; [|discriminate Hin].
+    destruct Hz as [_ Hz]. discriminate (Hz Hin).
+  - intros Ha. destruct (wres_of_not_wz _ Ha).
+Qed.
+
+(* D4: the pinned close returned Ready(Ok) with bytes still buffered *)
+Lemma close_pinned_refuted :
+  exists st, let '(r, st', evs) := close_pinned st in
+             r = ROk /\ wbuf st' <> [] /\ wire evs = [].
+Proof. exists (mkW [0] [] [] []). cbn. repeat split. discriminate. Qed.
+
+Section WriteFacts.
+  Variable I : Type.
+  Variable encode : I -> list Z -> bool * list Z.
+  (* the encoder law: an item either appends its encoding `encb it` to dst, or is refused and
+     dst is untouched *)
+  Variable encb : I -> option (list Z).
+  Definition enc_law : Prop :=
+    forall it dst, encode it dst = match encb it with Some bs => (true, dst ++ bs) | None => (false, dst) end.
+
+  Notation wstep := (wstep encode).
+  Notation run_write := (run_write encode).
+
+  (* the encoding of the item a call accepted (start_send returned Ok), else nothing *)
+  Definition accepted (op : wop I) (r : wres) : list Z :=
+    match op, r with
+    | OSend it, ROk => match encb it with Some bs => bs | None => [] end
+    | _, _ => []
+    end.
+
+  Fixpoint sent (ops : list (wop I)) (outs : list (wres * list wev * bool * bool)) : list Z :=
+    match ops, outs with
+    | op :: ops', (r, _, _, _) :: outs' => accepted op r ++ sent ops' outs'
+    | _, _ => []
+    end.
+
+  Definition wire_of (outs : list (wres * list wev * bool * bool)) : list Z :=
+    concat (map (fun o => wire (snd (fst (fst o)))) outs).
+
+  (* one call: the transport takes a prefix of the buffer; the accepted item goes to its end *)
+  Lemma wstep_lossless : enc_law -> forall st op r st' evs,
+    wstep st op = (r, st', evs) -> wire evs ++ wbuf st' = wbuf st ++ accepted op r.
+  Proof.
+    intros Hl st op r st' evs H. destruct op as [|it| |]; cbn [Framed.wstep] in H.
+    - destruct (write_ready st).
+      + injection H as <- <- <-. cbn [wire accepted app]. now rewrite app_nil_r.
+      + destruct (flush_spec _ _ _ _ H) as [Hw _]. cbn [accepted]. now rewrite app_nil_r.
+    - unfold write in H. rewrite Hl in H. destruct (encb it) as [bs|] eqn:Eb;
+        injection H as <- <- <-; cbn [wire accepted app wbuf]; rewrite ?Eb, ?app_nil_r; reflexivity.
+    - destruct (flush_spec _ _ _ _ H) as [Hw _]. cbn [accepted]. now rewrite app_nil_r.
+    - destruct (close_spec _ _ _ _ H) as [Hw _]. cbn [accepted]. now rewrite app_nil_r.
+  Qed.
+
+  (* C14_lossless *)
+  Theorem write_lossless : enc_law -> forall ops st outs fin,
+    run_write ops st = (outs, fin) -> wire_of outs ++ wbuf fin = wbuf st ++ sent ops outs.
+  Proof.
+    intros Hl. induction ops as [|op ops IH]; intros st outs fin H; cbn [Framed.run_write] in H.
+    - injection H as <- <-. cbn. now rewrite app_nil_r.
+    - destruct (wstep st op) as [[r st'] evs] eqn:E.
+      destruct (run_write ops st') as [outs' fin'] eqn:E'. injection H as <- <-.
+      unfold wire_of. cbn [map concat fst snd sent]. fold (wire_of outs').
+      rewrite <- app_assoc, (IH _ _ _ E'), app_assoc, (wstep_lossless Hl _ _ _ _ _ E).
+      now rewrite <- app_assoc.
+  Qed.
+
+  Lemma run_write_app ops1 : forall ops2 st,
+    run_write (ops1 ++ ops2) st =
+    let '(o1, s1) := run_write ops1 st in
+    let '(o2, s2) := run_write ops2 s1 in (o1 ++ o2, s2).
+  Proof.
+    induction ops1 as [|op ops1 IH]; intros ops2 st; cbn [app Framed.run_write].
+    - destruct (run_write ops2 st) as [o2 s2]. reflexivity.
+    - destruct (wstep st op) as [[r st'] evs]. rewrite IH.
+      destruct (run_write ops1 st') as [o1 s1]. destruct (run_write ops2 s1) as [o2 s2]. reflexivity.
+  Qed.
+
+  (* at every point of every run what is on the wire is a prefix of the concatenation of the
+     encodings of the items accepted so far; the rest of it is exactly write_buf *)
+  Theorem write_prefix : enc_law -> forall ops1 ops2 st outs1 mid,
+    wbuf st = [] -> run_write ops1 st = (outs1, mid) ->
+    sent ops1 outs1 = wire_of outs1 ++ wbuf mid
+    /\ exists outs2 fin, run_write (ops1 ++ ops2) st = (outs1 ++ outs2, fin)
+                         /\ wire_of (outs1 ++ outs2) = wire_of outs1 ++ wire_of outs2.
+  Proof.
+    intros Hl ops1 ops2 st outs1 mid Hb H. split.
+    - pose proof (write_lossless Hl _ _ _ _ H) as E. rewrite Hb in E. cbn [app] in E. now rewrite E.
+    - rewrite run_write_app, H. destruct (run_write ops2 mid) as [o2 s2]. exists o2, s2.
+      split; [reflexivity|]. unfold wire_of. now rewrite map_app, concat_app.
+  Qed.
+
+  (* C14_flush_ok / C14_close_ok *)
+  Theorem flush_ok st st' evs :
+    wstep st OFlush = (ROk, st', evs) ->
+    wbuf st' = [] /\ wire evs = wbuf st /\ ends_with evs [EvFlush FOk].
+  Proof.
+    cbn [Framed.wstep]. intros H. destruct (flush_spec _ _ _ _ H) as (Hw & Hok & _).
+    destruct (Hok eq_refl) as [Hb He]. rewrite Hb, app_nil_r in Hw. auto.
+  Qed.
+
+  Theorem close_ok st st' evs :
+    wstep st OClose = (ROk, st', evs) ->
+    wbuf st' = [] /\ wire evs = wbuf st /\ ends_with evs [EvFlush FOk; EvShutdown FOk].
+  Proof.
+    cbn [Framed.wstep]. intros H. destruct (close_spec _ _ _ _ H) as (Hw & Hok & _).
+    destruct (Hok eq_refl) as [Hb He]. rewrite Hb, app_nil_r in Hw. auto.
+  Qed.
+
+  (* a successful poll_flush / poll_close at any point of any run: everything accepted so far is
+     on the wire, in order, nothing else *)
+  Theorem write_complete : enc_law -> forall ops op st outs1 mid st' evs,
+    wbuf st = [] -> run_write ops st = (outs1, mid) ->
+    op = OFlush \/ op = OClose -> wstep mid op = (ROk, st', evs) ->
+    wire_of outs1 ++ wire evs = sent ops outs1 /\ wbuf st' = [].
+  Proof.
+    intros Hl ops op st outs1 mid st' evs Hb H Hop Hs.
+    pose proof (write_lossless Hl _ _ _ _ H) as E. rewrite Hb in E. cbn [app] in E.
+    destruct Hop as [-> | ->].
+    - destruct (flush_ok _ _ _ Hs) as (H1 & H2 & _). now rewrite H2, E.
+    - destruct (close_ok _ _ _ Hs) as (H1 & H2 & _). now rewrite H2, E.
+  Qed.
+
+  (* C14_backpressure *)
+  Theorem ready_below_hw st : (wlen st < HW)%N -> wstep st OReady = (ROk, st, []).
+  Proof. intros H. cbn [Framed.wstep]. unfold write_ready. apply N.ltb_lt in H. now rewrite H. Qed.
+
+  Theorem ready_at_hw st : (HW <= wlen st)%N -> wstep st OReady = wstep st OFlush.
+  Proof. intros H. cbn [Framed.wstep]. unfold write_ready. apply N.ltb_ge in H. now rewrite H. Qed.
+
+  Theorem ready_ok_not_full st st' evs :
+    wstep st OReady = (ROk, st', evs) -> (wlen st' < HW)%N.
+  Proof.
+    cbn [Framed.wstep]. unfold write_ready. destruct (N.ltb_spec (wlen st) HW) as [Hlt|Hge]; intros H.
+    - injection H as <- <-. exact Hlt.
+    - destruct (flush_spec _ _ _ _ H) as (_ & Hok & _). destruct (Hok eq_refl) as [Hb _].
+      unfold wlen. rewrite Hb. reflexivity.
+  Qed.
+
+  (* start_send never touches the transport *)
+  Theorem send_no_io st it r st' evs : wstep st (OSend it) = (r, st', evs) -> evs = [] /\ (r = ROk \/ r = REncErr).
+  Proof.
+    cbn [Framed.wstep]. unfold write. destruct (encode it (wbuf st)) as [[|] b]; intros H; injection H as <- <- <-; auto.
+  Qed.
+
+  (* C14_write_zero *)
+  Theorem write_zero st op r st' evs :
+    wstep st op = (r, st', evs) ->
+    (r = RWriteZero <-> In EvWZero evs) /\
+    (r = RWriteZero -> ends_with evs [EvWZero] /\ wbuf st' <> [] /\ wire evs ++ wbuf st' = wbuf st).
+  Proof.
+    intros H. destruct op as [|it| |]; cbn [Framed.wstep] in H.
+    - destruct (write_ready st).
+      + injection H as <- <- <-. split; [split; [discriminate|intros []]|discriminate].
+      + destruct (flush_spec _ _ _ _ H) as (Hw & _ & Hz & Hz2). split; [exact Hz|].
+        intros Hr. destruct (Hz2 Hr). auto.
+    - destruct (send_no_io _ _ _ _ _ H) as [-> Hr].
+      split; [split; [intros ->; destruct Hr; discriminate|intros []]|intros ->; destruct Hr; discriminate].
+    - destruct (flush_spec _ _ _ _ H) as (Hw & _ & Hz & Hz2). split; [exact Hz|].
+      intros Hr. destruct (Hz2 Hr). auto.
+    - destruct (close_spec _ _ _ _ H) as (Hw & _ & Hz & Hz2). split; [exact Hz|].
+      intros Hr. destruct (Hz2 Hr). auto.
+  Qed.
+
+  (* the transport answering 0 to the first write of a flush: WriteZero, buffer intact *)
+  Theorem flush_zero_first st w :
+    wbuf st <> [] -> (ws st = WZero :: w \/ ws st = WAccept 0 :: w) ->
+    wstep st OFlush = (RWriteZero, mkW (wbuf st) w (fs st) (ss st), [EvWZero]).
+  Proof.
+    intros Hne Hw. cbn [Framed.wstep]. unfold flush. destruct (wbuf st) as [|b t]; [congruence|].
+    destruct Hw as [-> | ->]; reflexivity.
+  Qed.
+End WriteFacts.
+
+Arguments enc_law {I}.
+Arguments sent {I}.
+Arguments accepted {I}.
+
+(* the three encoders satisfy the law *)
+Definition lines_encb (s : list Z) : option (list Z) := Some (s ++ [10]).
+Definition bytes_encb (p : list Z) : option (list Z) := Some p.
+Definition lp_encb (p : list Z) : option (list Z) :=
+  if (254 <? length p)%nat then None else Some (Z.of_nat (length p) :: p).
+
+Lemma lines_enc_law : enc_law lines_encode lines_encb.
+Proof. intros it dst. reflexivity. Qed.
+Lemma bytes_enc_law : enc_law bytes_encode bytes_encb.
+Proof. intros it dst. reflexivity. Qed.
+Lemma lp_enc_law : enc_law lp_encode lp_encb.
+Proof. intros it dst. unfold lp_encode, lp_encb. destruct (254 <? length it)%nat; reflexivity. Qed.
